@@ -406,8 +406,51 @@ pub fn comparator_axioms(ctx: &Ctx, tier: Tier) -> u64 {
             containers.push((format!("ECUC-CONTAINER-VALUE {n} index={idx:?}"), c));
         }
     }
+    // (3) parameter values: DEFINITION-REF x INDEX x VALUE; (4) reference conditionals: DEST x text
+    let mut params: Vec<(String, Element)> = vec![];
+    let mut refs: Vec<(String, Element)> = vec![];
+    {
+        let cfg = host.create_named_sub_element(ElementName::EcucModuleConfigurationValues, "cfgp").unwrap();
+        let k = cfg.create_sub_element(ElementName::Containers).unwrap().create_named_sub_element(ElementName::EcucContainerValue, "k").unwrap();
+        let pv = k.create_sub_element(ElementName::ParameterValues).unwrap();
+        for defref in [None, Some("/d/a"), Some("/d/a10"), Some("/d/a2"), Some("/d/b")] {
+            for idx in [None, Some("0"), Some("1"), Some("10")] {
+                for val in ["1", "2", "10"] {
+                    let e = pv.create_sub_element(ElementName::EcucNumericalParamValue).unwrap();
+                    let mut ok = true;
+                    if let Some(d) = defref {
+                        ok &= e.create_sub_element(ElementName::DefinitionRef).and_then(|r| r.set_attribute(AttributeName::Dest, EnumItem::EcucIntegerParamDef).and_then(|_| r.set_character_data(d))).is_ok();
+                    }
+                    ok &= e.create_sub_element(ElementName::Value).and_then(|x| x.set_character_data(val)).is_ok();
+                    if let Some(i) = idx {
+                        ok &= e.create_sub_element(ElementName::Index).and_then(|x| x.set_character_data(i)).is_ok();
+                    }
+                    if !ok {
+                        ctx.machinery_error("comparator universe: cannot build a parameter value");
+                    }
+                    params.push((format!("ECUC-NUMERICAL-PARAM-VALUE defref={defref:?} index={idx:?} value={val}"), e));
+                }
+            }
+        }
+        let sys = host.create_named_sub_element(ElementName::System, "sys").unwrap();
+        let fe = sys.create_sub_element(ElementName::FibexElements).unwrap();
+        for dest in [Some(EnumItem::CanCluster), Some(EnumItem::EcuInstance), Some(EnumItem::CanFrame), None] {
+            for text in [Some("/x/a"), Some("/x/a10"), Some("/x/a2"), Some("/x/b"), None] {
+                let c = fe.create_sub_element(ElementName::FibexElementRefConditional).unwrap();
+                let r = c.create_sub_element(ElementName::FibexElementRef).unwrap();
+                if let Some(d) = dest {
+                    let _ = r.set_attribute(AttributeName::Dest, d);
+                }
+                if let Some(t) = text {
+                    let _ = r.set_character_data(t);
+                }
+                refs.push((format!("FIBEX-ELEMENT-REF-CONDITIONAL dest={dest:?} text={text:?}"), c.clone()));
+                refs.push((format!("FIBEX-ELEMENT-REF dest={dest:?} text={text:?}"), r));
+            }
+        }
+    }
     let mut evals = 0u64;
-    for (what, uni) in [("names", &universe), ("containers-with-index", &containers)] {
+    for (what, uni) in [("names", &universe), ("containers-with-index", &containers), ("parameter-values", &params), ("references", &refs)] {
         let n = uni.len();
         // the matrix, row by row in parallel (each comparison takes read locks only)
         let rows: Vec<Vec<i8>> = uni
